@@ -5,7 +5,7 @@ import pgen
 PID = "C05"
 RULE = ("glob patterns from a token grammar (literals, '*', '?', [set], [!set], ranges, ']' first in a set, lone ']', "
         "odd fragments '**' '***' '[' '[!]'), plain strings, and dewey patterns; names sampled FROM the pattern, one-edit "
-        "neighbours biased to index 0/1 (where the fast reject looks), names of length 0 and 1; plus EVERY pattern of length <= 3 (thorough 4) over 'a1-*?[]!{},<>=A' (all dispatch kinds) against a panel of short names; "
+        "neighbours biased to index 0/1 (where the fast reject looks), names of length 0 and 1; plus EVERY pattern of length <= 3 (thorough 4) over 'a1-*?[]!^{},<>=A.' (all dispatch kinds) against a panel of short names; "
         "non-trivial = pattern has a metacharacter or differs from the name, and the name has length >= 1")
 FUNCTIONAL = True
 ASSUMPTIONS = ["glob crate 0.3.1 Pattern::new/matches with default MatchOptions is modelled (Pattern.v), not verified"]
@@ -20,15 +20,16 @@ def generate(rng, tier):
              ("**", "abc"), ("**/a", "x/a"), ("a/**/b", "a/b"), ("a/**/b", "a/x/y/b"), ("a**", "a"), ("**a", "a"), ("a/**", "a/x"),
              ("/**/**/a", "/x/a"), ("x/**/**/a", "x/y/a"), ("**/**/a", "y/a"), ("**/**", "a/b"),
              ("libX11-[0-9]*", "libx11-1.8.7"), ("foo-[a-z]", "foo-Q"), ("foo-[!a-z]", "foo-Q"), ("foo-[A-Z]", "foo-q"), ("Ab*", "ab1"),
-             ("[a-", "a"), ("[!a-", "a"), ("[--0]", "."), ("[a-c-e]", "-"), ("[a-c-e]", "d"), ("é*", "éa"), ("?", "é")]
+             ("[a-", "a"), ("[!a-", "a"), ("foo-[^0-9]*", "foo-1.0"), ("foo-[^0-9]*", "foo-a1"), ("x[^]y", "x^y"), ("[^a]", "^"), ("[^a]", "b"),
+             ("*-[0-9]*", ".foo-1.0"), ("?foo", ".foo"), ("[.]a", ".a"), ("a/*", "a/.b"), ("a/?b", "a/.b"), ("[--0]", "."), ("[a-c-e]", "-"), ("[a-c-e]", "d"), ("é*", "éa"), ("?", "é")]
     for p, nme in fixed:
         cases.append(Case("pat.match", [enc(p), enc(nme)], tag="fixed"))
         cases.append(Case("pat.new", [enc(p)], tag="fixed"))
     # small scope, exhaustively: every pattern of length <= 3 (thorough: 4) over an alphabet holding every character the
     # dispatch, the fast reject and the glob compiler look at, against a panel of short names
     import itertools
-    sigma = "a1-*?[]!{},<>=A"
-    panel = ["", "a", "1", "-", "aa", "a1", "a-1", "A-1", "a-", "-1", "a]", "1a", "a*", "!"]
+    sigma = "a1-*?[]!^{},<>=A."
+    panel = ["", "a", "1", "-", "aa", "a1", "a-1", "A-1", "a-", "-1", "a]", "1a", "a*", "!", "^", ".a", "a^", "."]
     maxlen = 3 if tier == "quick" else 4
     cnt = 0
     for ln in range(0, maxlen + 1):
